@@ -559,3 +559,131 @@ theorem C14.getitem_int_old_double_wrap (P : Part1) (hv : Valid P) (hn : P.n = 4
     norm_num at h ⊢
     exact h
   · exact getInt_out_of_range P (-6) (by omega)
+
+/-! ## (8) round 4: grid points index to themselves (1-d and n-d `points()` / `index()`), cell volume and
+isotropy of uniform n-d partitions, the documented equivalences between the constructors.
+The definitions (`ndPoints`, `ndIndex`, `ndSize`, `ndCellVolume`, `ndIsotropic`, `reNonuniform`,
+`reFromGrid`) are executed by the driver (`nd`, `equiv`) and compared with `points()`, `index()`,
+`size`, `cell_volume`, `has_isotropic_cells`, `nonuniform_partition(*p.coord_vectors)` and
+`uniform_partition_fromgrid(p.grid)` of /repo on every run. -/
+
+/-- `index(c[i]) == i` for EVERY valid 1-d partition, every node: each grid point is located in its own
+cell by the code's point location (`searchsorted` on the boundary vector plus the two corrections),
+including a node ON the left limit, a node ON the right limit (closed last cell) and the one-point
+partition of a one-point set.  (Stronger than `node_in_own_cell`, which only bounds the node by the
+boundary vector.) -/
+theorem C14.index_of_node (P : Part1) (hv : Valid P) (i : Nat) (hi : i < P.n) :
+    P.index (P.c i) = some (i : Int) :=
+  index_node P hv i hi
+
+example : (⟨3, fun i => i * i, 0, 4⟩ : Part1).index 4 = some 2 := by
+  have hv : Valid ⟨3, fun i => i * i, 0, 4⟩ := by
+    refine ⟨by decide, ?_, by norm_num, by norm_num⟩
+    intro i hi
+    have hi' : i + 1 < 3 := hi
+    have : i = 0 ∨ i = 1 := by omega
+    rcases this with rfl | rfl <;> norm_num
+  have := C14.index_of_node _ hv 2 (by decide)
+  norm_num at this
+  exact this
+
+/-- n-d `points()` and `index()`, every number of axes, every shape: `points()` (C order) has `size`
+rows, its rows are exactly the points `(c_0[i_0], …, c_{d-1}[i_{d-1}])` with every `i_j` in range, and
+`index` of such a point is its multi-index `(i_0, …, i_{d-1})`. -/
+theorem C14.points_index_nd (P : Part) (hv : ∀ p ∈ P, Valid p) :
+    (ndPoints P).length = ndSize P ∧
+    (∀ v, v ∈ ndPoints P ↔ ∃ mi, InRange P mi ∧ v = pointAt P mi) ∧
+    (∀ mi, InRange P mi → ndIndex P (pointAt P mi) = some (mi.map fun (i : Nat) => (i : Int))) :=
+  ⟨ndPoints_length P, ndPoints_spec P, ndIndex_pointAt P hv⟩
+
+example : InRange [⟨3, fun i => i * i, 0, 4⟩, ⟨2, fun i => i, -1, 1⟩] [2, 1] ∧
+    pointAt [⟨3, fun i => i * i, 0, 4⟩, ⟨2, fun i => i, -1, 1⟩] [2, 1] = [4, 1] := by
+  refine ⟨⟨by decide, by decide, trivial⟩, ?_⟩
+  simp [pointAt]; norm_num
+
+/-- `uniform_partition_fromintv` in any number of dimensions (all four flag combinations per axis,
+every `n_j ≥ 2`): the n-d constructor returns the axis-wise uniform partition, it `is_uniform`,
+`cell_volume` is defined (not NaN) and
+
+  `cell_volume * ∏ (n_j - (bl_j + br_j)/2) = ∏ (max_j - min_j)`;
+
+for the default `nodes_on_bdry=False` this is "cell volume times number of cells is the volume of the
+domain" (second statement, with `size`).  For every family of non-negative `is_uniform` tolerances,
+in particular the one the code derives per axis (`Part1.uniTol`). -/
+theorem C14.cell_volume_uniform (tol : Part1 → Tol) (ht : ∀ p, 0 ≤ (tol p).atol ∧ 0 ≤ (tol p).rtol)
+    (A : List UAxis) (h : ∀ a ∈ A, a.lo < a.hi ∧ 2 ≤ a.n) :
+    fromIntv (A.map (·.lo)) (A.map (·.hi)) (A.map (·.n)) (A.map fun a => (a.bl, a.br)) =
+      some (A.map UAxis.part) ∧
+    ndIsUniform tol (A.map UAxis.part) = true ∧
+    ∃ V, ndCellVolume tol (A.map UAxis.part) = some V ∧
+      V * prodList (A.map fun a => (a.n : Rat) - halfCount a.bl a.br) =
+        prodList (A.map fun a => a.hi - a.lo) ∧
+      ((∀ a ∈ A, a.bl = false ∧ a.br = false) →
+        V * (ndSize (A.map UAxis.part) : Rat) = prodList (A.map fun a => a.hi - a.lo)) := by
+  refine ⟨fromIntv_axes A (fun a ha => ⟨(h a ha).1, by have := (h a ha).2; omega⟩),
+    ndIsUniform_uniform tol ht A h, prodList (A.map UAxis.side), ?_, prod_sides A h, ?_⟩
+  · unfold ndCellVolume
+    rw [ndCellSides_uniform tol ht A h]; rfl
+  · intro hf
+    rw [← prod_sides A h]
+    congr 1
+    clear h
+    induction A with
+    | nil => simp [ndSize, prodList]
+    | cons a A ih =>
+      obtain ⟨h1, h2⟩ := hf a (by simp)
+      simp only [List.map_cons, ndSize, prodList, Nat.cast_mul]
+      rw [ih (fun b hb => hf b (by simp [hb])), h1, h2]
+      simp [halfCount, UAxis.part, uniformAxis]
+
+example : ∃ V, ndCellVolume (fun _ => Tol.numpy)
+      ([⟨0, 3, 4, true, false⟩, ⟨-1, 1, 2, false, false⟩].map UAxis.part) = some V ∧
+    V * ((4 - 1 / 2) * (2 * 1)) = 3 * (2 * 1) := by
+  obtain ⟨_, _, V, h1, h2, _⟩ := C14.cell_volume_uniform (fun _ => Tol.numpy)
+    (fun _ => by norm_num [Tol.numpy]) [⟨0, 3, 4, true, false⟩, ⟨-1, 1, 2, false, false⟩]
+    (by intro a ha; simp at ha; rcases ha with rfl | rfl <;> norm_num)
+  refine ⟨V, h1, ?_⟩
+  norm_num [prodList, halfCount] at h2 ⊢
+  linarith
+
+/-- `has_isotropic_cells`: (a) a uniform n-d partition whose axes all have the same cell side
+`(max_j - min_j) / (n_j - (bl_j + br_j)/2) = s` is reported isotropic, for every non-negative
+`np.allclose` tolerance; (b) with exact comparison the flag implies that ALL cell sides are equal (the
+code only compares neighbours `sides[:-1]` with `sides[1:]`; with a tolerance that chain is not
+transitive, so (b) is stated for `Tol.exact`). -/
+theorem C14.isotropic_cells (tol : Part1 → Tol) (ht : ∀ p, 0 ≤ (tol p).atol ∧ 0 ≤ (tol p).rtol) :
+    (∀ (t : Tol), 0 ≤ t.atol → 0 ≤ t.rtol → ∀ (A : List UAxis), (∀ a ∈ A, a.lo < a.hi ∧ 2 ≤ a.n) →
+      ∀ s, (∀ a ∈ A, a.side = s) → ndIsotropic tol t (A.map UAxis.part) = true) ∧
+    (∀ (P : Part), ndIsotropic tol Tol.exact P = true →
+      ∃ sides, ndCellSides tol P = some sides ∧ ∀ x ∈ sides, ∀ y ∈ sides, x = y) := by
+  refine ⟨fun t h1 h2 A h s hs => ndIsotropic_uniform tol ht t h1 h2 A h s hs, ?_⟩
+  intro P hP
+  unfold ndIsotropic at hP
+  cases hs : ndCellSides tol P with
+  | none => simp [hs] at hP
+  | some sides =>
+    rw [hs] at hP
+    simp only [Bool.and_eq_true] at hP
+    exact ⟨sides, rfl, allClose_exact_chain sides hP.2⟩
+
+example : (⟨0, 1, 5, false, false⟩ : UAxis).side = 1 / 5 ∧ (⟨-1, 1, 10, false, false⟩ : UAxis).side = 1 / 5 := by
+  constructor <;> norm_num [UAxis.side, halfCount]
+
+/-- The documented equivalences between the constructors, on the executed model, all four flag
+combinations, every `n ≥ 2`, every `lo < hi`: building the uniform partition and feeding its coordinate
+vector (a) to `nonuniform_partition(…, nodes_on_bdry=(bl, br))`, or (b) to
+`uniform_partition_fromgrid` with the limits that carry a node given explicitly and the others left
+out, returns the SAME partition (same nodes, and the recomputed limits `c[0] - (c[1]-c[0])/2`,
+`c[-1] + (c[-1]-c[-2])/2` are exactly `lo`, `hi`).  (`n = 1` is excluded: there
+`nonuniform_partition` collapses the set to the node and `uniform_partition_fromgrid` raises.) -/
+theorem C14.constructors_agree (lo hi : Rat) (hlh : lo < hi) (n : Nat) (hn : 2 ≤ n) (bl br : Bool) :
+    reNonuniform (uniformAxis lo hi n bl br) bl br = some (uniformAxis lo hi n bl br) ∧
+    reFromGrid (uniformAxis lo hi n bl br) bl br = some (uniformAxis lo hi n bl br) :=
+  ⟨reNonuniform_uniform lo hi hlh n hn bl br, reFromGrid_uniform lo hi hlh n hn bl br⟩
+
+/-- Sharpness of `n ≥ 2` above: one node in the middle of `[0, 3]`. -/
+example : (reNonuniform (uniformAxis 0 3 1 false false) false false).map (fun p => (p.lo, p.hi)) =
+    some (3 / 2, 3 / 2) ∧ reFromGrid (uniformAxis 0 3 1 false false) false false = none := by
+  constructor
+  · simp [reNonuniform, nonuniformAxis, uniformAxis, gminOf, Part1.mk?, Part1.wf]
+  · simp [reFromGrid, fromGridAxis, uniformAxis]
